@@ -18,6 +18,14 @@ cases = [
  ('calc-rename-local', 'pjplan/schedule.py', [("forward_resource_usage", "usage")], 'C03'),
  ('text-repr-equivalent-test', 'pjplan/utils.py', [("            if len(res) > 0:\n                res += '\\n'", "            if res != '':\n                res += '\\n'")], 'C20'),
  ('id-test-reorder-independent-statements', 'pjplan/task.py', [("    parent_tree_ids = set([t.id for t in parent_tree])\n    new_task_ids = set([t.id for t in new_tasks])", "    new_task_ids = set([t.id for t in new_tasks])\n    parent_tree_ids = set([t.id for t in parent_tree])")], 'C05'),
+ ('raws-to-wbs-hoist-lookup', 'pjplan/io/raw.py', [("        if raw.parent_id is not None:\n            parent_task = tasks_by_id.get(raw.parent_id)\n            if parent_task is not None:", "        pid = raw.parent_id\n        if pid is not None:\n            parent_task = tasks_by_id.get(pid)\n            if parent_task is not None:")], 'C13'),
+ ('raws-to-wbs-equivalent-test', 'pjplan/io/raw.py', [("            if predecessor_task is not None:\n                task.predecessors.append(predecessor_task)", "            if predecessor_task is None:\n                continue\n            task.predecessors.append(predecessor_task)")], 'C13'),
+ ('check-loops-reorder-bookkeeping', 'pjplan/schedule.py', [("    visited_tasks.remove(task.id)\n    validated.add(task.id)", "    validated.add(task.id)\n    visited_tasks.remove(task.id)")], 'C14'),
+ ('add-work-inline-local', 'pjplan/alg/critical_path.py', [("        for p in predecessors:\n            link = self.__links[p]\n            self.__connect(link.end, start, 0)", "        for p in predecessors:\n            self.__connect(self.__links[p].end, start, 0)")], 'C12'),
+ ('usage-table-rename-local', 'pjplan/schedule.py', [("        d = min_date\n        while d <= max_date:", "        d = min_date\n        while not (d > max_date):")], 'C20'),
+ ('sheet-rows-equivalent-test', 'pjplan/task.py', [("        if children:\n            for ch in task.children:\n                _Repr.__print_task_subtree(ch, fields, level + 1, table, children, theme)", "        if not children:\n            return\n        for ch in task.children:\n            _Repr.__print_task_subtree(ch, fields, level + 1, table, children, theme)")], 'C20'),
+ ('list-operator-extract-local', 'pjplan/task.py', [("        for t in self:\n            t.predecessors += other\n        return other", "        extra = other\n        for t in self:\n            t.predecessors += extra\n        return other")], 'C16'),
+ ('network-src-hoist-length', 'pjplan/viz/mermaid/network.py', [("            if len(t.predecessors) == 0:", "            n_pre = len(t.predecessors)\n            if n_pre == 0:")], 'C19'),
 ]
 import sys as _s
 if len(_s.argv) > 1: cases = [c for c in cases if _s.argv[1] in c[0]]
